@@ -49,8 +49,8 @@ pub struct ModScript {
   pub calls: Vec<(String, String)>,
   /// latency control: while `hold` is set every call parks until the harness releases it (`Some(true)`: answer as
   /// scripted, `Some(false)`: fail) — the real handler is suspended inside the modulator call meanwhile
-  /// the modulator is unreachable for its next `down_calls` calls (`operations()` included): they fail
-  pub down_calls: u32,
+  /// the modulator is unreachable: every call fails, `operations()` included
+  pub down: bool,
   pub hold: bool,
   /// when non-empty only calls whose description starts with this prefix are parked
   pub hold_prefix: String,
@@ -74,7 +74,7 @@ impl ScriptedModulator {
         auth: AuthS::Failure,
         direct: Some(true),
         calls: Vec::new(),
-        down_calls: 0,
+        down: false,
         hold: false,
         hold_prefix: String::new(),
         parked: Vec::new(),
@@ -95,15 +95,8 @@ impl ScriptedModulator {
     };
     rx.await.unwrap_or(false)
   }
-  /// consumes one of the scripted "unreachable" calls
   fn unreachable(&self) -> bool {
-    let mut s = self.script.lock().unwrap();
-    if s.down_calls > 0 {
-      s.down_calls -= 1;
-      true
-    } else {
-      false
-    }
+    self.script.lock().unwrap().down
   }
   pub fn set_hold(&self, hold: bool) {
     self.script.lock().unwrap().hold = hold;
@@ -197,6 +190,9 @@ impl narwhal_modulator::Modulator for ScriptedModulator {
       if !self.gate(what).await {
         anyhow::bail!("modulator call failed (latency script)");
       }
+    }
+    if self.unreachable() {
+      anyhow::bail!("modulator unreachable (scripted)");
     }
     let ok = {
       let mut s = self.script.lock().unwrap();
